@@ -27,10 +27,10 @@ func TestVerif(t *testing.T) {
 		ID:    "C15",
 		Level: "exploration",
 		Rule: "(A) for Repository.Tags, Registry.Repositories and Repository.Referrers (API): every item list of length 0..5 x every value of last (none, each item, a non-member) x every split of the remaining items into <= 4 pages (empty pages included) " +
-			"x client page size {0,1,2,7} x Link form {absolute, relative, relative with extra parameters and spaces, relative with an opaque cursor instead of last} x callback failing at page {never,0,1,2} x (referrers) artifact-type filter {none, applied by the server via header, via annotation, not applied}; " +
+			"x client page size {0,1,2,7} x Link form {absolute, absolute path, absolute path with extra parameters and spaces, an opaque cursor instead of last, query-only reference, relative-path reference ./<last segment>} x (when a page is empty) that page written with or without its list member x callback failing at page {never,0,1,2} x (referrers) artifact-type filter {none, applied by the server via header, via annotation, not applied}; " +
 			"the scripted registry double serves exactly those pages and checks every follow-up request against the Link it issued. (B) response documents of size limit-1, limit, limit+1 for small MaxMetadataBytes, padded by whitespace inside the document, after it, or by a long item; a counting body measures the bytes consumed. " +
 			"(C) OCI layout Tags (read-write and read-only store) for every subset of 4 tag names x every last. (D) Referrers through the tag schema with every filter. " +
-			"Oracle: concatenated callback arguments = the model list; stops at the first missing Link or callback error (returned); bytes consumed <= limit; oversize document => error. non-trivial = distinct case with >= 2 pages or a non-empty last",
+			"Oracle: concatenated callback arguments = the model list (for referrers also artifactType and annotations of every descriptor, which differ from entry to entry); a slice handed to the callback still holds the same items after the listing; stops at the first missing Link or callback error (returned); bytes consumed <= limit; oversize document => error. non-trivial = distinct case with >= 2 pages or a non-empty last",
 		Assumptions: []string{"a 'document' is the JSON value; trailing whitespace after a value that fits the limit is not part of it"},
 		Jobs:        jobs,
 	})
@@ -112,6 +112,12 @@ func (p *pager) Do(req *http.Request) (*http.Response, error) {
 			h.Set("Link", "<"+u.String()+`>; rel="next"`)
 		case 1:
 			h.Set("Link", "<"+req.URL.Path+"?"+nq.Encode()+`>; rel="next"`)
+		case 4: // a query-only relative reference (RFC 3986 section 5.2: same path, new query)
+			h.Set("Link", "<?"+nq.Encode()+`>; rel="next"`)
+		case 5: // a relative-path reference: the last segment of the request path again
+			seg := req.URL.Path[strings.LastIndex(req.URL.Path, "/")+1:]
+			// written with "./" because a first segment containing ':' (a digest) would read as a scheme
+			h.Set("Link", "<./"+seg+"?"+nq.Encode()+`>; rel="next"`)
 		default:
 			h.Set("Link", "<"+req.URL.Path+"?"+nq.Encode()+`>;   rel="next"; title="x>y"`)
 		}
@@ -179,7 +185,20 @@ func refDesc(name string) ocispec.Descriptor {
 	if name == "ab" || name == "c" {
 		at = "application/vnd.t.y"
 	}
-	return ocispec.Descriptor{MediaType: ocispec.MediaTypeImageManifest, Digest: digest.FromString(name), Size: int64(len(name)), ArtifactType: at}
+	d := ocispec.Descriptor{MediaType: ocispec.MediaTypeImageManifest, Digest: digest.FromString(name), Size: int64(len(name)), ArtifactType: at}
+	// optional members differ from entry to entry: "a" carries annotations, "b" and "d" carry none, "d" has no artifactType
+	switch name {
+	case "a":
+		d.Annotations = map[string]string{"k": "of-a"}
+	case "d":
+		d.ArtifactType = ""
+	}
+	return d
+}
+
+// descKey writes out what the callback was handed for one referrer.
+func descKey(name string, d ocispec.Descriptor) string {
+	return fmt.Sprintf("%s|%s|%v", name, d.ArtifactType, d.Annotations)
 }
 
 func paging(c *driver.Ctx, tg string, n int) {
@@ -217,7 +236,7 @@ func paging(c *driver.Ctx, tg string, n int) {
 			}
 			for _, sp := range splits(len(served), 4) {
 				for _, psize := range []int{0, 1, 2, 7} {
-					for lf := 0; lf < 4; lf++ {
+					for lf := 0; lf < 6; lf++ {
 						for _, failAt := range []int{-1, 0, 1, 2} {
 							one(c, tg, served, want, last, filter, sp, psize, lf, failAt)
 						}
@@ -229,6 +248,17 @@ func paging(c *driver.Ctx, tg string, n int) {
 }
 
 func one(c *driver.Ctx, tg string, served, want []string, last, filter string, sp []int, psize, lf, failAt int) {
+	oneEnc(c, tg, served, want, last, filter, sp, psize, lf, failAt, false)
+	for _, k := range sp {
+		if k == 0 {
+			// an empty page may also be written without its list member
+			oneEnc(c, tg, served, want, last, filter, sp, psize, lf, failAt, true)
+			break
+		}
+	}
+}
+
+func oneEnc(c *driver.Ctx, tg string, served, want []string, last, filter string, sp []int, psize, lf, failAt int, sparse bool) {
 	p := &pager{host: "reg.example", linkForm: lf, ctype: "application/json", filterHd: filter == "hdr"}
 	if psize > 0 {
 		p.clientN = fmt.Sprint(psize)
@@ -238,10 +268,19 @@ func one(c *driver.Ctx, tg string, served, want []string, last, filter string, s
 		page := served[off : off+k]
 		off += k
 		var b []byte
-		switch tg {
-		case "tags":
+		switch {
+		case tg == "tags" && sparse && k == 0:
+			b = []byte(`{"name":"ns/app"}`)
+		case tg == "repositories" && sparse && k == 0:
+			b = []byte(`{}`)
+		case tg == "referrers" && sparse && k == 0:
+			b = []byte(`{"schemaVersion":2,"mediaType":"` + ocispec.MediaTypeImageIndex + `"}`)
+			if filter == "ann" {
+				b = []byte(`{"schemaVersion":2,"mediaType":"` + ocispec.MediaTypeImageIndex + `","annotations":{"org.opencontainers.referrers.filtersApplied":"artifactType"}}`)
+			}
+		case tg == "tags":
 			b, _ = json.Marshal(map[string]any{"name": "ns/app", "tags": page})
-		case "repositories":
+		case tg == "repositories":
 			b, _ = json.Marshal(map[string]any{"repositories": page})
 		default:
 			idx := ocispec.Index{MediaType: ocispec.MediaTypeImageIndex, Manifests: []ocispec.Descriptor{}}
@@ -257,6 +296,9 @@ func one(c *driver.Ctx, tg string, served, want []string, last, filter string, s
 		p.pages = append(p.pages, b)
 	}
 	var got []string
+	var kept [][]string   // the very slices the callback was handed, looked at again after the listing
+	var keptAt [][]string // what they held at that moment
+	var gotDescs, wantDescs []string
 	calls := 0
 	var err error
 	ctx := context.Background()
@@ -274,6 +316,7 @@ func one(c *driver.Ctx, tg string, served, want []string, last, filter string, s
 			}
 			calls++
 			got = append(got, t...)
+			kept, keptAt = append(kept, t), append(keptAt, append([]string(nil), t...))
 			return nil
 		})
 	case "repositories":
@@ -288,6 +331,7 @@ func one(c *driver.Ctx, tg string, served, want []string, last, filter string, s
 			}
 			calls++
 			got = append(got, t...)
+			kept, keptAt = append(kept, t), append(keptAt, append([]string(nil), t...))
 			return nil
 		})
 	default:
@@ -315,15 +359,19 @@ func one(c *driver.Ctx, tg string, served, want []string, last, filter string, s
 					}
 				}
 				got = append(got, name)
+				gotDescs = append(gotDescs, descKey(name, d))
 			}
 			return nil
 		})
+		for _, it := range want {
+			wantDescs = append(wantDescs, descKey(it, refDesc(it)))
+		}
 	}
 	c.Evals++
 	if len(sp) >= 2 || last != "" {
 		c.Nontriv(driver.Hash(tg, fmt.Sprint(served, want, last, filter, sp, psize, lf, failAt)))
 	}
-	desc := fmt.Sprintf("%s items=%v last=%q filter=%q pages=%v clientPageSize=%d linkForm=%d callbackFailsAt=%d -> got %v err %v", tg, served, last, filter, sp, psize, lf, failAt, got, err)
+	desc := fmt.Sprintf("%s items=%v last=%q filter=%q pages=%v (empty pages without their list member: %v) clientPageSize=%d linkForm=%d callbackFailsAt=%d -> got %v err %v", tg, served, last, filter, sp, sparse, psize, lf, failAt, got, err)
 	viol := func(sig string) {
 		c.AddViolation(driver.Violation{Tier: c.Tier, Job: c.Job, Scenario: tg, Sig: tg + ": " + sig, Detail: desc + "\n" + strings.Join(p.bad, "\n")})
 	}
@@ -359,6 +407,16 @@ func one(c *driver.Ctx, tg string, served, want []string, last, filter string, s
 	}
 	if err != nil {
 		viol("listing failed on a fault-free exchange")
+		return
+	}
+	if fmt.Sprint(kept) != fmt.Sprint(keptAt) {
+		desc += fmt.Sprintf("\npages as handed to the callback: %v; the same slices after the listing: %v", keptAt, kept)
+		viol("a page handed to the callback was overwritten by a later page")
+		return
+	}
+	if strings.Join(got, ",") == strings.Join(want, ",") && strings.Join(gotDescs, ";") != strings.Join(wantDescs[:len(gotDescs)], ";") {
+		desc += fmt.Sprintf("\ndelivered: %v\nserved:    %v", gotDescs, wantDescs)
+		viol("delivered descriptors differ from the ones the registry served (artifactType / annotations)")
 		return
 	}
 	if strings.Join(got, ",") != strings.Join(want, ",") {
